@@ -147,6 +147,7 @@ SITES = [
     ("restoreMappingGuard", "lib/lpc/object.c", r"if \(\+\+count > CONFIG_INT \(__MAX_MAPPING_SIZE__\)\)" + W + r"\{.{0,400}?mapping_too_large \(\);", 1, None),
     ("handlerNestedKeepsState", "src/error_context.c", r"if \(current_error_context == mudlib_error_handler_context\)" + W + r"\{" + W + r"in_mudlib_error_handler = 0;" + W + r"set_error_state \(handler_limit_state\);" + W + r"\}", 2, None),
     ("handlerSavesState", "src/error_context.c", r"handler_limit_state = limit_state;" + W + r"in_mudlib_error_handler = 1;" + W + r"mudlib_error_handler_context = current_error_context;", 2, None),
+    ("handlerTraceBeforeRestore", "src/error_context.c", r"mret = apply_master_ob \(APPLY_ERROR_HANDLER, 1\);" + W + r"\}" + W + r"if \(\(svalue_t \*\) - 1 == mret \|\| NULL == mret\)" + W + r"\{" + W + r"debug_message_with_location \(err\);" + W + r"dump_trace \(g_trace_flag\);", 1, None),
     ("setLimitCast", "lib/efuns/unsorted.c", r"default:" + W + r"CONFIG_INT \(__MAX_EVAL_COST__\) = \(int\)sp->u.number;" + W + r"if \(CONFIG_INT \(__MAX_EVAL_COST__\) < 1\)", 1, None),
     ("aggregateAlloc", "src/interpret.c", r"unsigned short offset;.{0,60000}?case F_AGGREGATE:" + W + r"\{" + W + r"array_t \*v;" + W + r"LOAD_SHORT \(offset, pc\);" + W + r"offset \+= \(unsigned short\)num_varargs;" + W + r"num_varargs = 0;" + W + r"v = allocate_empty_array \(\(int\) offset\);", 1, None),
     ("callbackTickBlock", "src/interpret.c", r"svalue_t\* call_efun_callback \(function_to_call_t \* ftc, int n\) \{" + W + r"svalue_t \*v;" + W + r"(?:/\*.*?\*/)?" + W + r"if \(!--eval_cost\)" + W + r"\{" + W + r"set_error_state \(ES_MAX_EVAL_COST\);" + W + r"eval_cost = CONFIG_INT \(__MAX_EVAL_COST__\);" + W + r"error", 1, None),
@@ -430,8 +431,34 @@ SPIN_FORMS = [
 SPIN_MIN_ITERATIONS = 100
 
 
-def lpc_of(root):
+# configuration / master variants a machine case can run under (one harness process per variant; `conf <name>` line)
+CONF_VARIANTS = {
+    "eh-args": ("/c04/master.c", "ArgumentsInTrace Yes\n"),
+    "eh-locals": ("/c04/master.c", "LocalVariablesInTrace Yes\n"),
+    "noeh": ("/c04/master_noeh.c", ""),
+    "noeh-args": ("/c04/master_noeh.c", "ArgumentsInTrace Yes\n"),
+    "noeh-locals": ("/c04/master_noeh.c", "LocalVariablesInTrace Yes\n"),
+    "noeh-both": ("/c04/master_noeh.c", "ArgumentsInTrace Yes\nLocalVariablesInTrace Yes\n"),
+}
+# what every function of the program is handed as its argument and keeps in a local (the frames of the trace hold it)
+ARG_KINDS = {
+    "obj": "this_object ()", "arr": "({ this_object (), 1 })", "map": "([ \"k\" : this_object () ])", "str": "\"s\"", "int": "7",
+}
+
+
+def with_arguments(src, argkind):
+    """every node function takes one argument and keeps it in a local; every call passes a value of the given kind"""
+    import re
+    head, sep, rest = src.partition("string safe_fn")
+    rest = re.sub(r"\bmixed (f\d+(?:_b)?) \(\)( \{ )?", lambda m: "mixed %s (mixed a)%s" % (m.group(1), " { mixed lv = a; " if m.group(2) else ""), rest)
+    rest = re.sub(r"\b(f\d+(?:_b)?) \(\)", lambda m: "%s (%s)" % (m.group(1), ARG_KINDS[argkind]), rest)
+    return head + sep + rest
+
+
+def lpc_of(root, argkind=None):
     """one LPC function per node; returns the source text"""
+    if argkind:
+        return with_arguments(lpc_of(root), argkind)
     out = [HEADER % root.term()]
     cnt = [0]
 
@@ -514,10 +541,10 @@ def lpc_of(root):
     return "\n".join(out) + "\n"
 
 
-def machine_case(cid, root, cost, depth, stack, hc=0, meta=None, idx=None, via="cfgint"):
+def machine_case(cid, root, cost, depth, stack, hc=0, meta=None, idx=None, via="cfgint", conf=None, argkind=None):
     idx = idx or {}
     name = "/c04/g_%s" % "".join(ch if ch.isalnum() else "_" for ch in cid)
-    src = lpc_of(root)
+    src = lpc_of(root, argkind)
     if via == "reconf":      # through init_config () of lib/rc/rc.cpp (resets the other limits: must come first)
         first = ["reconf MaxEvaluationCost %d" % cost]
     elif via == "setlimit":  # through the efun set_eval_limit ()
@@ -525,7 +552,7 @@ def machine_case(cid, root, cost, depth, stack, hc=0, meta=None, idx=None, via="
     else:
         first = ["cfgint %d %d" % (idx.get("cfgEvalCost", 8), cost)]
     # (objects are loaded before the budget is lowered: create () runs under the budget, too)
-    lines = ["lpc %s.c %s" % (name, src.encode().hex()), "load p %s" % name] + first + ["depth %d" % depth, "stack %d" % stack]
+    lines = (["conf %s" % conf] if conf else []) + ["lpc %s.c %s" % (name, src.encode().hex()), "load p %s" % name] + first + ["depth %d" % depth, "stack %d" % stack]
     if hc:
         lines.append("mset set_handler_catches %d" % hc)
     lines += ["shape %s" % root.term(), "ev p main"]
@@ -551,7 +578,7 @@ class C04(Prop):
                         "NV.C04.sprintf_exceeds_small_limit", "NV.C04.array_size_wraps",
                         "NV.C04.buffer_size_wraps", "NV.C04.repeat_string_old_wraps",
                         "NV.C04.compose_count_wraps_16", "NV.C04.save_variable_old_exceeds",
-                        "NV.C04.handler_lost_limit_state_before_fix"]
+                        "NV.C04.handler_lost_limit_state_before_fix", "NV.C04.handler_early_restore_loses_state"]
     consts = CONSTS
     const_headers = ["src/interpret.h", "lib/rc/rc.h", "lib/lpc/include/runtime_config.h", "lpc/array.h", "lpc/buffer.h",
                      "lpc/mapping.h", "src/stralloc.h", "src/backend.h"]
@@ -613,6 +640,14 @@ class C04(Prop):
         backops = "".join('{"%s",%s},' % (o, o) for o in self.loop_info.get("backwardOps", []))
         self.exe = E.compile_harness("c04", [os.path.join(E.VERIF, "harness/c04/c04.c")], extra=["-DC04_BACKOPS=" + backops])
         self.conf = E.make_mudlib(ctx.rundir, master="/c04/master.c", extra_conf=BASE_CONF)
+        self.confs = {}
+        base = open(self.conf).read()
+        for vname, (master, extra) in CONF_VARIANTS.items():
+            text = "".join(("MasterFile\t    %s\n" % master) if l.startswith("MasterFile") else l for l in base.splitlines(True))
+            path = os.path.join(ctx.rundir, "verif-%s.conf" % vname)
+            with open(path, "w") as f:
+                f.write(text + extra)
+            self.confs[vname] = path
         self.idx = dict(getattr(ctx, "gen_vals", {}) or {})
         self.raw = {}
 
@@ -654,7 +689,15 @@ class C04(Prop):
         return problems
 
     def run_impl(self, ctx, cases):
-        res = E.run_harness(self.exe, self.conf, cases, ctx.rundir, args=["--timeout", os.environ.get("NV_C04_TIMEOUT", "6")])
+        # one harness process per configuration / master variant (`conf <name>` as the first line of a case)
+        groups = {}
+        for c in cases:
+            v = c.lines[0].split()[1] if c.lines and c.lines[0].startswith("conf ") and len(c.lines[0].split()) == 2 else ""
+            groups.setdefault(v if v in getattr(self, "confs", {}) else "", []).append(c)
+        res = {}
+        for v, cs in groups.items():
+            res.update(E.run_harness(self.exe, self.confs[v] if v else self.conf, cs, ctx.rundir,
+                                     args=["--timeout", os.environ.get("NV_C04_TIMEOUT", "6")]))
         for k, v in res.items():
             self.raw[k] = list(v)
         return res
@@ -666,7 +709,7 @@ class C04(Prop):
         if not (has("ev ") or has("sz ")):
             return False
         if has("ev p "):
-            return has("lpc ") and has("load p ") and has("shape ")
+            return has("lpc ") and has("load p ") and has("shape ") and (lines[0].startswith("conf ") or not has("conf "))
         if has("sz ") or has("ev sizes "):
             return has("load sizes ")
         return True
@@ -683,8 +726,8 @@ class C04(Prop):
 
 
     # ---- generators ------------------------------------------------------
-    def mk(self, cid, root, cost=3000, depth=20, stack=300, hc=0, origin="boundary"):
-        return machine_case(cid, root, cost, depth, stack, hc, {"origin": origin}, self.idx_or_default())
+    def mk(self, cid, root, cost=3000, depth=20, stack=300, hc=0, origin="boundary", conf=None, argkind=None):
+        return machine_case(cid, root, cost, depth, stack, hc, {"origin": origin}, self.idx_or_default(), conf=conf, argkind=argkind)
 
     def idx_or_default(self):
         d = {"cfgEvalCost": 8, "cfgMaxArray": 11, "cfgMaxBuffer": 12, "cfgMaxMapping": 13, "cfgMaxString": 14}
@@ -799,6 +842,18 @@ class C04(Prop):
             B.append(self.mk("b-hf%d-safe-spin-loop" % mode, Bk(3, A(S)), cost=2000, hc=mode))
         B.append(self.mk("b-hf3-c2-spin", Q(C(C(S)), W(50)), hc=3))
         B.append(self.mk("b-hf3-safe-spin", Q(A(S), W(10)), cost=2000, hc=3))
+        # error delivery without a master error_handler (): the driver's own trace, which with ArgumentsInTrace /
+        # LocalVariablesInTrace applies master::object_name through safe_apply for every object value of every frame
+        k = 0
+        for conf in sorted(CONF_VARIANTS):
+            for argkind in ("obj", "arr", "map", "str"):
+                for name, root, kw in (("c-spin-work", Q(C(S), W(50)), {}), ("c2-rec", C(C(R(2))), {}),
+                                       ("cb-c-spin", Q(Bk(2, C(N("S", form=3))), W(5)), {"cost": 2000}),
+                                       ("c-err-spin", Q(C(E_), C(N("S", form=1))), {})):
+                    k += 1
+                    if conf.startswith("eh") and k % 3:      # (with a handler the trace is not printed: a third of the combinations)
+                        continue
+                    B.append(self.mk("b-%s-%s-%s" % (conf, argkind, name), root, conf=conf, argkind=argkind, **kw))
         B.append(self.mk("b-cb-c-spin", Bk(3, C(C(S)))))
         B.append(self.mk("b-c-cb-spin", C(Bk(2, S, 1))))
         B.append(self.mk("b-c-call-c-spin", C(F(2, C(F(1, S))))))
@@ -946,7 +1001,14 @@ class C04(Prop):
             if rng.chance(1, 12):       # a budget that the driver clamps to 1
                 cost = rng.choice([0, -1, -3000]) if via != "setlimit" else rng.choice([-2, -3000, 4294967296])
                 via = "reconf" if via == "cfgint" else via
-            return machine_case(cid, root, cost, depth, stack, hc, {"origin": "generated"}, self.idx_or_default(), via)
+            conf = argkind = None
+            if rng.chance(1, 6) and not root.has(("A",)):
+                # (no safe applies there: the variant masters answer object_name themselves, for the trace)
+                conf = rng.choice(sorted(CONF_VARIANTS))
+                argkind = rng.choice(["obj", "obj", "arr", "map", "str", "int"])
+                if conf.startswith("noeh"):
+                    hc = 0
+            return machine_case(cid, root, cost, depth, stack, hc, {"origin": "generated"}, self.idx_or_default(), via, conf=conf, argkind=argkind)
         return self.mk(cid, Node("C", kids=[Node("C", kids=[Node("S")])]), origin="generated")
 
     def gen_sizes(self, rng, cid):
